@@ -147,10 +147,10 @@ func verifRecord(h *Header, refs []*Reference) *Record {
 		case 2:
 			a, err = NewAux(tag, uint8(vrt.Uint8("auxu8")))
 		case 3:
-			v := verifNumber("auxint", -(1<<31), -1, -128, -129, 127, 128, -32768, -32769, 32767, 32768, 1<<31-1, -(1<<31))
+			v := verifNumber("auxint", -(1<<31), -(1<<31), 1<<31-1, -1, -128, -129, 127, 128, -32768, -32769, 32767, 32768)
 			a, err = NewAux(tag, v)
 		case 4:
-			v := verifNumber("auxuint", 0, 255, 256, 65535, 65536, 1<<32-1)
+			v := verifNumber("auxuint", 0, 1<<32-1, 1<<31, 65536, 65535, 256, 255, 0)
 			a, err = NewAux(tag, uint(v))
 		case 5:
 			n := vrt.Choice("zlen", 3)
